@@ -55,16 +55,19 @@ def local_spelling_rule(ctx, chk, rule):
             continue
         g = None
         for c in iter_own_nodes(f.node):
-            if not (isinstance(c, ast.Compare) and isinstance(c.left, ast.Constant) and isinstance(c.left.value, str)
-                    and c.left.value.lower() == "local" and len(c.ops) == 1 and isinstance(c.ops[0], (ast.In, ast.NotIn, ast.Eq, ast.NotEq))):
+            if not (isinstance(c, ast.Compare) and len(c.ops) == 1 and isinstance(c.ops[0], (ast.In, ast.NotIn, ast.Eq, ast.NotEq))):
+                continue
+            lit, e = c.left, c.comparators[0]
+            if isinstance(c.ops[0], (ast.Eq, ast.NotEq)) and not isinstance(lit, ast.Constant):
+                lit, e = e, lit                      # X == 'local' reads like 'local' == X
+            if not (isinstance(lit, ast.Constant) and isinstance(lit.value, str) and lit.value.lower() == "local"):
                 continue
             n += 1
-            e = c.comparators[0]
 
             def lowered(x):
                 return isinstance(x, ast.Call) and isinstance(x.func, ast.Attribute) and x.func.attr in ("lower", "casefold") and not x.args
-            ok = lowered(e) and c.left.value == "local"
-            if not ok and isinstance(e, ast.Name) and c.left.value == "local":
+            ok = lowered(e) and lit.value == "local"
+            if not ok and isinstance(e, ast.Name) and lit.value == "local":
                 g = g or CFG(f.node)
                 at = g.node_of_expr(f.node, c)
                 rd = g.reaching_defs(e.id).get(at, set())
